@@ -1,7 +1,7 @@
 (** C03 — property theorems: statements (as printed by Coq) closed by [exact]. *)
 From Coq Require Import ZArith QArith List.
 From KV Require Import Base.Outcome Base.Num C19.Model C19.ProofsEasing C06.Model C06.Dur C06.Proofs C06.Proofs2
-  C03.Model C03.ProofsInner C03.ProofsLife C03.ModelStream C03.ProofsStream C03.ProofsBoundary.
+  C03.Model C03.ProofsInner C03.ProofsLife C03.ModelStream C03.ProofsStream C03.ProofsBoundary C03.ProofsTweenStart.
 Import ListNotations.
 Local Open Scope Q_scope.
 
@@ -608,3 +608,43 @@ Theorem same_boundary_pause_only :
        c_pause c = Some tp ->
        c_resume c = None -> c_stop c = None -> ps (drained m c) = Pausing.
 Proof. exact @drained_pause_only. Qed.
+
+(** *** a fade command whose tween carries its own start time: [resume(tween)] is an immediate resume (Resuming at
+    once, whatever the tween's start time); only the fade waits, and it counts the tween's delay once *)
+
+Theorem resume_is_immediate_for_any_tween :
+  forall (m : psm Q Q) (tw : tween Q),
+       ps m <> Stopped ->
+       ps (presume m Immediate tw) = Resuming /\
+       p_state (fade (presume m Immediate tw)) = Tweening (p_raw (fade m)) (Fixed identityQ) 0 tw /\
+       p_raw (fade (presume m Immediate tw)) = p_raw (fade m) /\
+       p_stagnant (fade (presume m Immediate tw)) = false.
+Proof. exact @resume_now_any_tween. Qed.
+
+Theorem fading_state_waits_for_tween_delay :
+  forall (powf : Q -> Q -> Q) (m : psm Q Q) (d : pstate7 Q) (v0 tg t : Q)
+         (tw : tween Q) (rem : Z) (dt : Q) (i : info Q) (ns : Z),
+       fading (ps m) = Some d ->
+       p_state (fade m) = Tweening v0 (Fixed tg) t tw ->
+       p_stagnant (fade m) = false ->
+       tw_start tw = Delayed rem ->
+       rem <> 0%Z ->
+       secs_to_ns dt = Ok ns ->
+       exists f : param Q Q,
+         pupd powf m dt i = Ok ({| ps := ps m; fade := f |}, false) /\
+         p_state f = Tweening v0 (Fixed tg) t (with_delay tw (sat_sub rem ns)) /\
+         p_stagnant f = false.
+Proof. exact @delay_pending_step. Qed.
+
+Theorem resume_tween_delay_counted_once :
+  forall (powf : Q -> Q -> Q) (m : psm Q Q) (tw : tween Q) (rem : Z)
+         (dt : Q) (i : info Q) (ns : Z),
+       ps m <> Stopped ->
+       tw_start tw = Delayed rem ->
+       rem <> 0%Z ->
+       secs_to_ns dt = Ok ns ->
+       exists f : param Q Q,
+         pupd powf (presume m Immediate tw) dt i = Ok ({| ps := Resuming; fade := f |}, false) /\
+         p_state f = Tweening (p_raw (fade m)) (Fixed identityQ) 0 (with_delay tw (sat_sub rem ns)) /\
+         p_stagnant f = false.
+Proof. exact @resume_delay_counted_once. Qed.
